@@ -8,8 +8,8 @@ using namespace datasketches;
 namespace vf {
 
 struct ReqFam {
-  typedef req_sketch<float> SK;
-  static const char* name() { return "req"; }
+  typedef req_sketch<c08::Item> SK;
+  static const char* name() { static const std::string n = std::string("req") + c08::item_tag(); return n.c_str(); }
   // cfg = k + 1000 * hra
   static SK make(int cfg) { return SK(static_cast<uint16_t>(cfg % 1000), cfg >= 1000); }
   static std::string cfg_text(int cfg) { return "k=" + std::to_string(cfg % 1000) + (cfg >= 1000 ? " HRA" : " LRA"); }
